@@ -60,6 +60,7 @@ def run(check, prog):
     ranges(check, prog)
     composites(check, prog, canon)
     setterless(check, prog)
+    rigid_cluster_members(check, prog)
 
 
 def matmul(A, B):
@@ -585,3 +586,33 @@ def setterless(check, prog):
             check.ok('M6-setterless-property-store', short,
                      'no inherited method stores to a setter-less property', '')
     check.floor('attribute stores on scatterer objects', n, 20)
+
+
+def rigid_cluster_members(check, prog):
+    """M7: the members of a RigidCluster are its spheres rotated by its rotation
+    about their centroid, then translated by its translation -- for every rotation
+    and translation (no angle triple is special-cased)."""
+    RC = 'holopy.scattering.scatterer.spherecluster.RigidCluster'
+    q = RC + '.scatterers'
+    fd = prog.func(q)
+    loc = prog.loc(q, fd)
+    it = Interp(prog, max_depth=0)
+    res = it.analyze(q)
+    me = sym(fd.args.args[0].arg)
+    want = intern(('attr', ('call', ('attr', ('call', ('attr', ('attr', me, 'spheres'),
+                                                        'rotated'),
+                                             (('attr', me, 'rotation'),), ()), 'translated'),
+                            (('attr', me, 'translation'),), ()), 'scatterers'))
+    star = intern(('attr', ('call', ('attr', ('call', ('attr', ('attr', me, 'spheres'),
+                                                        'rotated'),
+                                             (('star', ('attr', me, 'rotation')),), ()),
+                                     'translated'),
+                            (('star', ('attr', me, 'translation')),), ()), 'scatterers'))
+    rets = [o.value for o in res.returns]
+    ok = len(rets) >= 1 and all(v in (want, star) for v in rets) and not res.raises
+    check.require(ok, 'M7-rigid-cluster-members', 'RigidCluster.scatterers',
+                  'spheres.rotated(rotation).translated(translation).scatterers on '
+                  'every path', loc,
+                  fail_detail='returns %s' % [
+                      ' and '.join(('' if p else 'not ') + show(t)[:50] for t, p in o.cond)
+                      + ' -> ' + show(o.value)[:120] for o in res.returns][:3])
